@@ -78,7 +78,10 @@ fn replay(args: &[String]) -> i32 {
             || if phys_mod > 0 { (ln as u32) % phys_mod } else { def_phys },
             |x| x as u32,
         );
-        let phys = Phys::from_index(phys_idx);
+        let mut phys = Phys::from_index(phys_idx);
+        if let Some(bs) = meta["block_size"].as_u64() {
+            phys.block_size = bs as u32;
+        }
         let conc = Concretise {
             key_alpha: meta["key_alpha"].as_u64().map_or(def_ka, |x| x as u32),
             val_alpha: meta["val_alpha"].as_u64().map_or(def_va, |x| x as u32),
@@ -95,16 +98,34 @@ fn replay(args: &[String]) -> i32 {
         let reset = json!({"op": {"op": "reset", "beh": meta.get("id").cloned().unwrap_or(json!(ln)),
             "phys": phys.describe(), "key_alpha": conc.key_alpha, "val_alpha": conc.val_alpha,
             "blob": blob.is_some()},
-            "ret": "ok", "rk": "ok", "info": {}, "st": sess.project(), "obs": sess.observe()});
+            "ret": "ok", "rk": "ok", "ro": false, "info": {}, "st": sess.project(), "obs": sess.observe()});
         writeln!(wr, "{reset}").expect("write");
         nbeh += 1;
         for op in &ops {
+            let op = &sess.concretise_op(op);
             let (ret, info) = sess.exec(op);
             let skip = ret.starts_with("skip:");
             let dead = sess.tree.is_none();
-            let (st, obs) = if dead { (Value::Null, Value::Null) } else { (sess.project(), sess.observe()) };
+            let readonly = op["op"].as_str() == Some("scan");
+            let mut dead = dead;
+            let (st, obs) = if dead {
+                (Value::Null, Value::Null)
+            } else if readonly {
+                (json!({}), json!({}))
+            } else {
+                // a panic inside the tree may leave its locks poisoned: the tree is then unusable
+                match std::panic::catch_unwind(std::panic::AssertUnwindSafe(|| {
+                    (sess.project(), sess.observe())
+                })) {
+                    Ok(x) => x,
+                    Err(_) => {
+                        dead = true;
+                        (Value::Null, Value::Null)
+                    }
+                }
+            };
             let rk = ret.split(':').next().unwrap_or("").to_string();
-            let rec = json!({"op": op, "ret": ret, "rk": rk, "info": info, "st": st, "obs": obs});
+            let rec = json!({"op": op, "ret": ret, "rk": rk, "ro": readonly, "info": info, "st": st, "obs": obs});
             writeln!(wr, "{rec}").expect("write");
             nsteps += 1;
             if skip || dead {
